@@ -5,7 +5,7 @@
 From Coq Require Import List NArith Bool Arith Lia.
 From Verif Require Import Trie.Model Trie.Keys Trie.ProofsWf Trie.Theorems Store.Model Store.Proofs Store.ProofsCommit
   Store.ProofsReach Store.ProofsPrune Store.ProofsLink Store.ProofsTie Store.ExamplesPrune
-  Store.WorkTrie Store.ProofsWork Store.ProofsDirty Store.ExamplesWork.
+  Store.WorkTrie Store.ProofsWork Store.ProofsDirty Store.ExamplesWork Store.ProofsCompose Store.ExamplesCompose.
 Import ListNotations.
 Open Scope N_scope.
 
@@ -29,7 +29,8 @@ Section C12.
      follows no node of that version — every root of another trie, every root of this trie whose followed nodes have other
      versions — resolves to the same trie with the same fuel.  (The premise is exact: a root that does follow a node at
      (name, q, v) with q among the written paths reads the new blob.)  On histories the premise holds for every live
-     canonical root (followed_not_fresh; Example ex_commit_any_premise on a pruned store). *)
+     canonical root (live_roots_follow_no_fresh_version below; Example ex_commit_any_premise on a pruned store) and for
+     those only: nothing is claimed for dead-fork roots or directly opened pruned storage roots. *)
   Theorem commit_preserves_roots_any f (s : store V) name v es name' v' t :
     open_root V f s name' v' = Some t ->
     name' <> name \/ (forall q w b, Reach V (sget V s name') [] (SRef v') q w b -> w <> v) ->
@@ -266,6 +267,45 @@ Section C12.
   Theorem root_is_mpt (t1 t2 : node V) :
     wfc V t1 -> wfc V t2 -> (forall k, vkey k -> trie_get V t1 k = trie_get V t2 k) -> t1 = t2.
   Proof. exact (canonical_get V t1 t2). Qed.
+
+  (* ---- scope: every theorem above is PER TRIE (one `name`).  Composition for a state read ----
+     One store, the accounts trie (name 0) and a storage trie, each with its own History, pruned by the same round.  If the
+     account root is live after the round and the storage root the leaf names is live after the round in the storage
+     trie's history (live_after keeps the checkpointed root of a storage trie for this), the read "account root, then
+     storage root" answers the same trie before and after.  That the storage root named by a leaf of a live account root is
+     a live root of the storage trie's history is a PREMISE (it relates state.go to the store; not derived). *)
+  Theorem state_read_preserved (s : store V) sname
+      newerA anchorA olderA newerS anchorS olderS P base target cps fA nodesA fS nodesS av at_ sv st :
+    History V 0 s (newerA ++ anchorA :: olderA) P ->
+    History V sname s (newerS ++ anchorS :: olderS) P ->
+    P <= base -> base <= target -> base mod hf V s = 0 -> target mod hf V s = 0 ->
+    Forall (fun vt => target <= fst (fst vt)) newerA -> fst (fst anchorA) < target ->
+    Forall (fun vt => target <= fst (fst vt)) newerS -> fst (fst anchorS) < target ->
+    checkpoint_nodes V fA s 0 (fst anchorA) base = Some nodesA -> cps_for V 0 cps nodesA ->
+    checkpoint_nodes V fS s sname (fst anchorS) base = Some nodesS -> cps_for V sname cps nodesS ->
+    In (av, at_) (live_after V 0 newerA anchorA) ->
+    In (sv, st) (live_after V sname newerS anchorS) ->
+    exists f0, forall f, (f0 <= f)%nat ->
+      read_through_account V f s av sname sv = Some st /\
+      read_through_account V f (prune V s cps base target) av sname sv = Some st.
+  Proof.
+    exact (ProofsCompose.state_read_preserved V s sname newerA anchorA olderA newerS anchorS olderS P base target cps fA nodesA fS nodesS av at_ sv st).
+  Qed.
+
+  (* the executable round gives the checkpoint premise (cps_for) for every trie handed to it once *)
+  Theorem prune_round_cps_for f (s : store V) tries base target s' cps name v :
+    prune_round V f s tries base target = Some (s', cps) ->
+    NoDup (map fst tries) -> In (name, v) tries ->
+    exists nodes, checkpoint_nodes V f s name v base = Some nodes /\ cps_for V name cps nodes.
+  Proof. exact (ProofsCompose.prune_round_cps_for V f s tries base target s' cps name v). Qed.
+
+  (* the premise of commit_preserves_roots_any for the live canonical roots of a trie: they follow no node of a version
+     that is fresh in the hist space and not below the pruned mark.  (For other roots — dead forks, pruned storage roots
+     opened directly — nothing is claimed after pruning.) *)
+  Theorem live_roots_follow_no_fresh_version (s : store V) name chain P v' :
+    Inv V s name chain P -> hist_fresh V s name v' -> P <= fst v' ->
+    forall vt, In vt chain -> forall q w b, RR V (sget V s name) (fst vt) q w b -> w <> v'.
+  Proof. exact (followed_not_fresh V s name chain P v'). Qed.
 End C12.
 
 (* ---- the working-trie side of trie.go (Store/WorkTrie.v: tryGet / insert / delete over trees whose untouched subtrees are
@@ -533,6 +573,27 @@ Proof. exact yC3. Qed.
 Example ex_root_cache_reads : open_root nat 12 ys3' 0 v2 = Some yt2 /\ open_root nat 12 ys3' 0 v1 = Some yt1 /\ ykw2 <> WRef v1.
 Proof. exact y_cache_reads. Qed.
 
+(* a storage trie (name 2) next to the accounts trie in one store with deduped partition factor 1, three blocks, round
+   [0,2) through the executable prune_round (Store/ExamplesCompose.v): both histories, the checkpoint premise from
+   prune_round_cps_for, a state read through the account root after the round, a non-empty cache *)
+Example ex_two_tries : History nat 0 zs6 zchain 0 /\ History nat 2 zs6 zchain 0.
+Proof. exact (conj zH0 zH2). Qed.
+Example ex_cps_for : exists nodesA nodesS,
+  checkpoint_nodes nat 10 zs6 0 v1 0 = Some nodesA /\ cps_for nat 0 zcps nodesA /\
+  checkpoint_nodes nat 10 zs6 2 v1 0 = Some nodesS /\ cps_for nat 2 zcps nodesS.
+Proof. exact z_cps_for. Qed.
+Example ex_state_read : exists f0, forall f, (f0 <= f)%nat ->
+  read_through_account nat f zs6 v2 2 v1 = Some xt1 /\
+  read_through_account nat f (prune nat zs6 zcps 0 2) v2 2 v1 = Some xt1.
+Proof. exact z_state_read. Qed.
+Example ex_storage_root_from_deduped :
+  open_root nat 10 zs7 2 v1 = Some xt1 /\ open_root nat 10 zs7 0 v1 = None /\
+  hist_find nat (hist nat zs7) 2 [] v1 = None /\ read_through_account nat 10 zs7 v2 2 v1 = Some xt1.
+Proof. exact z_reads_computed. Qed.
+Example ex_nonempty_cache : (exists b, zcache [1%nat] v0 = Some b) /\ cache_coherent nat zcache (sget nat zs6 0) /\
+  Res nat (cached_get nat zcache (sget nat (prune nat zs6 zcps 0 2) 0)) [] (SRef v2) xt2.
+Proof. exact z_cache. Qed.
+
 Print Assumptions commit_preserves_roots.
 Print Assumptions resolve_independent_of_cache.
 Print Assumptions commit_reads_back.
@@ -578,3 +639,7 @@ Print Assumptions delete_dirty_on_path.
 Print Assumptions committed_handle_derived.
 Print Assumptions block_from_handle_step.
 Print Assumptions ops_history_with_root_cache.
+Print Assumptions state_read_preserved.
+Print Assumptions prune_round_cps_for.
+Print Assumptions live_roots_follow_no_fresh_version.
+Print Assumptions ex_state_read.
